@@ -14,7 +14,7 @@ def load_all():
             c['module_name'] = c['module'].rsplit('/', 1)[-1][:-3]
             c['key'] = key
             if c.get('pure'):
-                c['ensures'] = list(c.get('ensures', [])) + [('pure', f"result == {c['pure']}")]
+                c['ensures'] = list(c.get('ensures', [])) + [('pure', f"result == ({c['pure']})")]
             for fld in ('requires', 'ensures'):
                 nat = {}
                 norm = []
